@@ -227,6 +227,25 @@ fn default_objects(out: &mut Vec<Violation>) -> u64 {
     d!("rqsc::MemoryAffinityStructureResource", rqsc::MemoryAffinityStructureResource);
     d!("rqsc::ACPIDeviceResource", rqsc::ACPIDeviceResource);
     d!("rqsc::PCIDeviceResource", rqsc::PCIDeviceResource);
+    // the UEFI-defined error records of hest.rs (outside the README's table scope; they take part
+    // in the determinism / sink-independence relation only)
+    for (c, u, sev) in [(0u32, 0u32, hest::ErrorSeverity::None), (1, 1, hest::ErrorSeverity::Fatal), (2, 5, hest::ErrorSeverity::Correctable), (7, 1, hest::ErrorSeverity::Recoverable)] {
+        let st = hest::GenericErrorStatus::new(c, u, sev);
+        check_object("hest::GenericErrorStatus", &st, None, out);
+        let mut d = hest::GenericErrorData::new(sev);
+        d.section_type = 0x1234;
+        d.revision = 0x0300;
+        d.validation = 3;
+        d.flags = 1;
+        d.error_data_length = 24;
+        d.fru_id = [0xa5; 16];
+        d.fru_text = *b"FRU text 0123456789\0";
+        d.timestamp = [1, 2, 3, 4, 5, 6, 7, 8];
+        d.add_data(Box::new(0x1122_3344_5566_7788u64));
+        d.add_data(Box::new(gas::GAS::new(gas::AddressSpace::SystemIo, 8, 0, gas::AccessSize::ByteAccess, 0x3f8)));
+        check_object("hest::GenericErrorData", &d, None, out);
+        n += 2;
+    }
     // builder chains on a default object
     let r = srat::RintcAffinity::default().proximity_domain(0x0102_0304).enabled();
     check_object("srat::RintcAffinity::default().builders", &r, Some(r.as_bytes()), out);
